@@ -6,6 +6,7 @@ from .. import paths as P
 from ..effects import Effects, alias_roots
 from ..loader import methods
 from ..selftest.runner import M, TW, V
+from . import common as K
 
 PROPERTY = "C10"
 EXPLANATION = (
@@ -19,9 +20,11 @@ EXPLANATION = (
     "silently (a path without a yield must raise, defer the value to the documented job pool, warn about empty "
     "results, or be a zero-iteration of an inner result loop); (d) statelessness -- no loop-carried local "
     "definitions and no write to self in the loop body, so the output for selected values cannot depend on "
-    "interleaved unselected ones (and, tree-wide, no data-path method of any class writes through self except six named stateful "
-    "elements with the fields they may write); (e) every True exit of Write.run's selection predicate has established the condition under "
-    "which the body calls data.write, or that the data is a string.  Does not decide which values are selected.")
+    "interleaved unselected ones, and nothing after the loop reads what the last iteration left in the loop's variables (and, tree-wide, no data-path method of any class writes through self except six named stateful "
+    "elements with the fields they may write, and no nested function changes what it captured from its creating call); (e) every True exit of Write.run's selection predicate has established the condition under "
+    "which the body calls data.write, or that the data is a string.  (g) The selection verdict of MapBins / IterateBins / HistToGraph is taken on the example bin: for a histogram "
+    "get_example_bin descends exactly struct.dim levels (get_bin_on_index over struct.bins), never 'while it is a list' -- a bin whose "
+    "content is itself a list is the bin, not something to descend into.  Does not decide which values are selected.")
 RULES = {
     "C10-a": "identity: a passed value is the loop variable itself, never rebound, never a rebuilt tuple",
     "C10-b": "PURE: no mutation through the value or its aliases and no file-system/subprocess effect on a PASS path",
@@ -29,6 +32,8 @@ RULES = {
     "C10-d": "STATELESS: no loop-carried definitions, no writes to self in the per-value loop",
     "C10-e": "AGREE: Write.run's selection predicate and its dispatch use the same condition for objects with a write method "
              "(a value selected as writable is either such an object or a string)",
+    "C10-g": "DEPTH BY DIMENSION: the example bin of a histogram is found by its dimension (get_bin_on_index([0]*dim, bins)), "
+             "not by descending while the content is a list",
     "C10-f": "NO HIDDEN STATE: the data-path methods (run, __call__, fill_into and the adapters' drivers) of every class in lena "
              "write nothing through self, the named stateful elements excepted: what an element yields for a value cannot depend on "
              "the values, or the runs, that came before",
@@ -323,6 +328,85 @@ def check_stateless(ctx, modname, qual, fn, loop, allpaths, rule="C10-d"):
                       construct="loop-carried:%s" % name, path=p)
     if not carried:
         ctx.ok(rule, loop, "%s: no loop-carried local definition (%d locals assigned in the loop)" % (qual, len(assigned)))
+    # what the loop leaves in its variables is the *last* value of the flow: nothing after the loop may read it
+    leftover = set(assigned) | {loop.target.id}
+    rebound = set()
+    late = []
+
+    def reads_of(node):
+        for x in A.walk_local(node):
+            if isinstance(x, ast.Name) and isinstance(x.ctx, ast.Load) and x.id in leftover and x.id not in rebound:
+                comp = A.enclosing(x, (ast.ListComp, ast.SetComp, ast.DictComp, ast.GeneratorExp, ast.Lambda))
+                if comp is not None and not isinstance(comp, ast.Lambda) and x.id in {t for g in comp.generators for t in A.target_names(g.target)}:
+                    continue
+                if isinstance(comp, ast.Lambda) and x.id in A.func_params(comp):
+                    continue
+                late.append(x)
+
+    def scan(stmts):
+        for st in stmts:
+            if isinstance(st, (ast.FunctionDef, ast.AsyncFunctionDef, ast.ClassDef)):
+                continue
+            if isinstance(st, (ast.For, ast.AsyncFor)):
+                reads_of(st.iter)
+                rebound.update(A.target_names(st.target))
+                scan(st.body)
+                scan(st.orelse)
+            elif isinstance(st, ast.While):
+                reads_of(st.test)
+                scan(st.body)
+                scan(st.orelse)
+            elif isinstance(st, ast.If):
+                reads_of(st.test)
+                scan(st.body)
+                scan(st.orelse)
+            elif isinstance(st, (ast.With, ast.AsyncWith)):
+                for it in st.items:
+                    reads_of(it.context_expr)
+                    if it.optional_vars is not None:
+                        rebound.update(A.target_names(it.optional_vars))
+                scan(st.body)
+            elif isinstance(st, ast.Try):
+                scan(st.body)
+                for h in st.handlers:
+                    if h.name:
+                        rebound.add(h.name)
+                    scan(h.body)
+                scan(st.orelse)
+                scan(st.finalbody)
+            elif isinstance(st, ast.Delete):
+                for t in st.targets:
+                    if isinstance(t, ast.Name):
+                        rebound.add(t.id)
+                    else:
+                        reads_of(t)
+            else:
+                if isinstance(st, ast.AugAssign):
+                    reads_of(st.target) if not isinstance(st.target, ast.Name) else (
+                        late.append(st.target) if st.target.id in leftover and st.target.id not in rebound else None)
+                if getattr(st, "value", None) is not None:
+                    reads_of(st.value)
+                elif not isinstance(st, (ast.Assign, ast.AnnAssign, ast.AugAssign)):
+                    reads_of(st)
+                for t in A.assigned_targets(st):
+                    if not isinstance(t, ast.Name):
+                        reads_of(t)
+                    rebound.update(A.target_names(t))
+
+    sibs = getattr(A.parent(loop), "body", [])
+    if loop in sibs:
+        scan(sibs[sibs.index(loop) + 1:])
+    seen_late = set()
+    for x in late:
+        if x.id in seen_late:
+            continue
+        seen_late.add(x.id)
+        ctx.violation(rule, x, "%s reads `%s` after the per-value loop (`%s`): it holds whatever the last value of the flow left there, so "
+                      "what happens after the loop -- waiting for the jobs that were started, yielding their results -- depends on an "
+                      "unselected value that merely came last" % (qual, x.id, A.short(A.enclosing(x, (ast.stmt,)) or x, 50)),
+                      construct="after-loop-read:%s" % x.id)
+    if not late:
+        ctx.ok(rule, loop, "%s: nothing after the loop reads what the last iteration left in %s" % (qual, ", ".join(sorted(leftover))[:60]))
 
 
 def self_write(n):
@@ -464,9 +548,52 @@ def check_no_hidden_state(ctx):
                               "run%s" % (cls.name, name, A.short(st, 60), "; this element may only write " + ", ".join(sorted(allowed)) if allowed else ""),
                               construct="hidden-state:%s.%s.%s" % (cls.name, name, f))
     ctx.instances_floor("C10-f", n, 45, "data-path methods in lena")
+    # the same for closures: a function created once (in __init__, by a factory) and applied to every value must not
+    # change what it captured from the creating call
+    n_top = 0
+    for mod, fn in ctx.tree.functions():
+        if A.enclosing_func(fn) is not None:
+            continue
+        n_top += 1
+        for inner, name, node, how in K.closure_mutations(fn):
+            ctx.violation("C10-f", node, "%s, created in %s, %s -- a variable of the creating call that all its applications share: its "
+                          "result for a value depends on the values (and runs) that came before" % (
+                              "a lambda" if isinstance(inner, ast.Lambda) else "`%s`" % inner.name, A.qualname(fn), how),
+                          construct="closure-state:%s:%s" % (A.qualname(fn), name))
+    ctx.instances_floor("C10-f/closures", n_top, 400, "top-level functions and methods scanned for closure state")
+    ctx.ok("C10-f", ("lena", "<tree>"), "no nested function of %d functions/methods changes what it captured" % n_top)
+
+
+def check_example_bin(ctx):
+    """MapBins(select_bins=...), IterateBins and HistToGraph decide on get_example_bin(struct).  A histogram knows its dimension;
+    its bins may hold lists (vectors, lists of histograms) as content.  Descending by type would look inside the content."""
+    res = ctx.res
+    HF = "lena.structures.hist_functions"
+    fn = ctx.tree.func(HF, "get_example_bin")
+    sp = A.func_params(fn)[0]
+    n = 0
+    for p in P.paths_of(fn):
+        is_hist = any(pol and isinstance(t, ast.Call) and A.call_name(t) == "isinstance" and len(t.args) == 2 and A.src(t.args[0]) == sp
+                      and (res.canon(t.args[1]) or "").endswith("histogram") for t, pol in p.literals())
+        if not is_hist or p.end != "return":
+            continue
+        n += 1
+        by_type = [t for t, pol in p.literals() if isinstance(t, ast.Call) and A.call_name(t) == "isinstance" and len(t.args) == 2
+                   and A.src(t.args[0]) != sp and any(isinstance(x, ast.Name) and x.id in ("list", "tuple") for x in ast.walk(t.args[1]))]
+        calls = [c for _, c in p.calls() if (res.call_canon(c) or "").endswith("get_bin_on_index")]
+        ok = not by_type and len(calls) == 1 and len(calls[0].args) == 2 and A.src(calls[0].args[1]) == "%s.bins" % sp \
+            and "%s.dim" % sp in A.src(calls[0].args[0])
+        ctx.check("C10-g", ok, fn, "get_example_bin finds the example bin of a histogram %s on the path [%s]: a bin whose content is a list "
+                  "(select_bins=[vector3, list]; a histogram of lists of histograms) is taken apart, the selectors of MapBins, "
+                  "IterateBins and HistToGraph judge its first element, and an unselected histogram is transformed instead of passed on"
+                  % ("by descending while the content is a list (`%s`)" % A.short(by_type[0], 40) if by_type else
+                     "without get_bin_on_index([0] * %s.dim, %s.bins)" % (sp, sp), p.describe(4)),
+                  detail="histogram: example bin by dimension [%s]" % p.describe(3), construct="example-bin-by-type", path=p)
+    ctx.instances_floor("C10-g", n, 1, "paths of get_example_bin for a histogram")
 
 
 def check(ctx):
+    check_example_bin(ctx)
     check_no_hidden_state(ctx)
     check_write_agree(ctx)
     eff = Effects(ctx.res)
@@ -476,6 +603,10 @@ def check(ctx):
 
 
 VARIANTS = [
+    M("latex-last-value-decides-wait", "lena/output/latex_to_pdf.py", "        # this data mustn't be reused\n        del val\n",
+      "        if val is None:\n            return\n\n        # this data mustn't be reused\n        del val\n", ["C10-d"]),
+    M("example-bin-by-type", "lena/structures/hist_functions.py", "        return lena.structures.get_bin_on_index([0] * struct.dim, struct.bins)\n    else:\n        bins = struct\n        while isinstance(bins, list):\n            bins = bins[0]\n        return bins",
+      "        bins = struct.bins\n    else:\n        bins = struct\n    while isinstance(bins, list):\n        bins = bins[0]\n    return bins", ["C10-g"]),
     M("print-remembers-last", "lena/flow/print_.py", "    def __call__(self, value):", "    def __call__(self, value):\n        self._last = value", ["C10-f"]),
     M("writable-without-callable", "lena/output/write.py", "            if hasattr(data, \"write\") and callable(data.write):\n                return True", "            if hasattr(data, \"write\"):\n                return True", ["C10-e"]),
     M("tocsv-rebuild", "lena/output/to_csv.py", "            if not lena.context.get_recursively(context, \"output.to_csv\", True):\n                yield val",
